@@ -17,6 +17,7 @@ acts:  nR<c>.<s>  new DoWithShard call on shard s of collection c      (thread i
        xB<c>.<s>  environment: the database file of shard s of collection c becomes garbage (the
                   directory is created if need be); only while no handle is open on it
        xF<c>.<s>  environment: a regular file is put at the path of the (not existing) shard directory
+       xR<c>.<s>  environment: the garbage database file is removed again (the failure was transient)
 
 trace: one token per act  `<act>=<status of the acting thread>/<dir observations>` and a final
        `end=<status of every thread>/<dir observations>/dl=<0|1>`; a status is `at_<yield point>`,
@@ -51,6 +52,7 @@ def parseAct (tok : String) : Option Act :=
   else if tok.startsWith "f" then ((tok.drop 1).toString.toNat?).map Act.fire
   else if tok.startsWith "xB" then (parseDir (tok.drop 2).toString).map Act.corrupt
   else if tok.startsWith "xF" then (parseDir (tok.drop 2).toString).map Act.block
+  else if tok.startsWith "xR" then (parseDir (tok.drop 2).toString).map Act.repair
   else none
 
 def actStr : Act → String
@@ -60,6 +62,7 @@ def actStr : Act → String
   | .fire t => s!"f{t}"
   | .corrupt d => s!"xB{dirStr d}"
   | .block d => s!"xF{dirStr d}"
+  | .repair d => s!"xR{dirStr d}"
 
 def parseVariant (s : String) : Option Variant :=
   if s == "pinned" then some .pinned else if s == "repaired" then some .repaired else none
@@ -92,13 +95,13 @@ def insertSorted (d : Dir) (l : List Dir) : List Dir := if d ∈ l then l else i
 
 def dirUniverse (acts : List Act) : List Dir :=
   acts.foldl (fun acc a => match a with
-    | .newReq d | .corrupt d | .block d => insertSorted d acc
+    | .newReq d | .corrupt d | .block d | .repair d => insertSorted d acc
     | _ => acc) []
 
 def actingThread (s : St) : Act → Option Tid
   | .newReq _ | .newDel _ => some s.thr.length
   | .run t | .fire t => some t
-  | .corrupt _ | .block _ => none
+  | .corrupt _ | .block _ | .repair _ => none
 
 def actStatus (s s' : St) (a : Act) : String :=
   match actingThread s a with
@@ -358,8 +361,14 @@ def corruptAfterUnloadActs : List Act :=
   [.newReq (0,0)] ++ List.replicate 11 (.run 0) ++ [.run 1, .fire 1] ++ List.replicate 10 (.run 1) ++
   [.corrupt (0,0), .newReq (0,0)] ++ List.replicate 5 (.run 2) ++ [.newDel 0] ++ List.replicate 6 (.run 3) ++ [.newReq (0,0)]
 
+/-- a transient failure: two requests on a shard whose database file is garbage fail; the file is
+repaired (a torn transfer completed); the next request on the same shard must load it -/
+def transientFailActs : List Act :=
+  [.corrupt (0,0), .newReq (0,0)] ++ List.replicate 5 (.run 0) ++ [.newReq (0,0)] ++ List.replicate 5 (.run 1) ++
+  [.repair (0,0), .newReq (0,0)] ++ List.replicate 11 (.run 2) ++ [.newReq (0,0)] ++ List.replicate 8 (.run 4)
+
 def fixedScheds (v : Variant) : List (List Act) :=
-  [witnessActs, staleCleanupActs, openFailActs, mkdirFailActs, corruptAfterUnloadActs].map fun pre =>
+  [witnessActs, staleCleanupActs, openFailActs, mkdirFailActs, corruptAfterUnloadActs, transientFailActs].map fun pre =>
     -- the prefix as far as it is enabled in the model of this variant, completed to a terminal state
     let (s, n) := runSched v (St.init []) pre
     let pre := pre.take n
